@@ -2,6 +2,7 @@
 from props import brokerprops as B
 
 LEVEL = 'proof'
+TRUSTED_EXTRA = ['harness/pytrans3.py: fail-closed translator of Server.subscribe/unsubscribe/publish (hpfeeds/broker/server.py) and Connection.is_closing/connection_lost/on_publish/on_subscribe/on_unsubscribe/authenticate/message_received (hpfeeds/broker/connection.py) -> coq/BrokerGen.v (regenerated on every run), with coq/PyBroker.v, its reading of the objects (a Connection = its index; self.server None / not in server.connections = one flag; sets and the subscriber list as lists; which metrics, log calls and attributes are skipped; where the ghost log of accepted actions is appended); each translated method is proved equal to the hand-written model in coq/BrokerGenEq.v and run_src = run in coq/BrokerGenRun.v; hand-written there: the frame loop of process_pending, BaseProtocol.message_received dispatch, Connection.on_auth, connection_made, transport callbacks, the deadline timer', 'FunctionalExtensionality.functional_extensionality_dep (Coq standard library) for the *_src_* theorems only']
 ASSUMPTIONS = B.ASSUMPTIONS
 ASPECTS = 'DFAB'
 RULE = ('a well-behaved workload (2-4 connections that authenticate and only make permitted requests) generated together '
@@ -10,7 +11,7 @@ RULE = ('a well-behaved workload (2-4 connections that authenticate and only mak
         'bytes) and faults (Lost, EOF, stalls, clock) at random points, in random chunkings and interleavings, each callback '
         'under a watchdog; non-trivial = at least one PUBLISH delivered; compared with the Coq model on aspects %s; oracles: '
         'judge.py (frame-normalised) and "a well-behaved, unfaulted connection is never disconnected and none of its '
-        'callbacks raises"')
+        'callbacks raises, and the broker never stops reading from it"')
 PLAN = [(50, 1200, dict(profile='benign', chunking='bursts', reauth=0.06, nops=10), True), (30, 500, dict(scenario='reauth_leave'), True), (110, 3000, dict(profile='mixed', faults=0.06), False),
         (70, 1500, dict(profile='hostile', nconn=4), False),
         (100, 2500, dict(profile='mixed', chunking='frames', faults=0.05), True),
@@ -31,6 +32,12 @@ def healthy_oracle(case, d):
             return 'event %d %r: handling the chunk does not terminate' % (k, ev[:2])
         if ev[0] == 'D' and roles.get(str(ev[1])) == 'benign' and ev[1] not in faulted and rec['raised']:
             return 'event %d %r: a callback of well-behaved connection %d raised %s' % (k, ev[:2], ev[1], rec['raised'])
+        # with a synchronous store the broker has nothing to wait for: it must keep reading from a well-behaved connection
+        # whatever the others do (stall, leave, misbehave)
+        for q, s in (rec.get('snap') or {}).items():
+            if roles.get(str(q)) == 'benign' and q not in faulted and s.get('rpaused') and not s.get('closing'):
+                return ('event %d %r: the broker stopped reading from well-behaved connection %d (synchronous store, the connection '
+                        'itself did nothing wrong): its later requests are never looked at' % (k, ev[:2], q))
     last = d.trace[-1]['snap'] if d.trace else {}
     for q, s in last.items():
         if roles.get(str(q)) == 'benign' and q not in faulted and s['closing']:
